@@ -815,7 +815,9 @@ def run(case, focus=None):
                     rig.advance(0.25)
                     guard += 1
                 if wants_plunge():
-                    w.plunge(200, False)     # the player eventually plunges a ball MPF is waiting for
+                    if not w.plunge(200, False):    # the player eventually plunges a ball MPF is waiting for
+                        rig.advance(REST_S + 0.1)   # ... once it has come to rest
+                        w.plunge(200, False)
                     continue
                 if wants_launch():
                     launches[0] += 1
